@@ -127,9 +127,13 @@ Definition read_type_ok (pe : penv) (to_dir : bool) (h : strategy) (t : ty) : bo
   | _ => true
   end.
 
-Definition stmt_ok (pe : penv) (to_dir : bool) (rls wls : list rleaf) (whops : list (path * ty))
+(* a mapper method is not called through a pointer-embedded mapper *)
+Definition func_ok (mh : option path) (h : strategy) : bool :=
+  match h, mh with SFunc _, Some _ => false | _, _ => true end.
+
+Definition stmt_ok (pe : penv) (to_dir : bool) (mh : option path) (rls wls : list rleaf) (whops : list (path * ty))
            (allocd : list path) (s : stmt) : bool :=
-  negb (r_acc (st_src s)) && negb (r_acc (st_dst s))
+  negb (r_acc (st_src s)) && negb (r_acc (st_dst s)) && func_ok mh (st_how s)
   && match find_leaf rls (r_path (st_src s)), find_leaf wls (r_path (st_dst s)) with
      | Some rl, Some wl =>
          list_eqb path_eqb (st_guard s) (rl_hops rl)
@@ -143,14 +147,15 @@ Definition stmt_ok (pe : penv) (to_dir : bool) (rls wls : list rleaf) (whops : l
      | _, _ => false
      end.
 
-Definition plan_safe (e : env) (fuel : nat) (pe : penv) (to_dir : bool) (rfs wfs : list sfield) (pl : plan) : bool :=
+Definition plan_safe (e : env) (fuel : nat) (pe : penv) (to_dir : bool) (mh : option path)
+           (rfs wfs : list sfield) (pl : plan) : bool :=
   match pl_ctor pl with
   | Some _ => false
   | None =>
       let whops := rhops e fuel wfs in
       alloc_ok whops [] (pl_alloc pl)
       && forallb (fun a => zero_wf e fuel (snd a)) (pl_alloc pl)
-      && forallb (stmt_ok pe to_dir (rleaves e fuel rfs) (rleaves e fuel wfs) whops (map fst (pl_alloc pl))) (pl_stmts pl)
+      && forallb (stmt_ok pe to_dir mh (rleaves e fuel rfs) (rleaves e fuel wfs) whops (map fst (pl_alloc pl))) (pl_stmts pl)
   end.
 
 Definition decl_fields (e : env) (p : pkg) (n : string) : list sfield :=
@@ -193,8 +198,8 @@ Definition env_ok (e : env) : bool :=
 (* every generated mapper of the pair is safe, in both directions *)
 Definition plans_safe (e : env) (fuel : nat) (pe : penv) : bool :=
   forallb (fun tp =>
-    plan_safe e fuel pe true (decl_fields e PSrc (tp_src tp)) (decl_fields e PDst (tp_dst tp)) (tp_to tp)
-    && plan_safe e fuel pe false (decl_fields e PDst (tp_dst tp)) (decl_fields e PSrc (tp_src tp)) (tp_from tp)
+    plan_safe e fuel pe true (tp_mapper_hop tp) (decl_fields e PSrc (tp_src tp)) (decl_fields e PDst (tp_dst tp)) (tp_to tp)
+    && plan_safe e fuel pe false (tp_mapper_hop tp) (decl_fields e PDst (tp_dst tp)) (decl_fields e PSrc (tp_src tp)) (tp_from tp)
     && is_struct_decl e PSrc (tp_src tp) && is_struct_decl e PDst (tp_dst tp)
     && zero_wf e fuel (TNamed PSrc (tp_src tp)) && zero_wf e fuel (TNamed PDst (tp_dst tp))) pe
   && env_ok e.
